@@ -20,6 +20,7 @@ import time
 from concurrent.futures import ThreadPoolExecutor
 
 ROOT = os.path.dirname(os.path.dirname(os.path.abspath(__file__)))
+sys.path.insert(1, os.path.join(ROOT, '.deps'))
 REPO = os.environ.get('VERIF_REPO', '/repo')
 PY = '/venv/bin/python'
 MARK = '@@VERIF-RESULT@@'
